@@ -12,6 +12,7 @@ mod decode;
 mod exec;
 mod expr;
 mod faults;
+mod ffi;
 mod gen;
 mod hist;
 mod oracle;
@@ -55,6 +56,12 @@ fn main() {
                 exit(2);
             }
             oracle::run(&args[2], &args[3], &args[4], &args[5]);
+        }
+        "ffi" => {
+            // child process of `@ffi_check`
+            for l in ffi::report(&args[2]) {
+                println!("{l}");
+            }
         }
         other => {
             eprintln!("unknown subcommand {other}");
